@@ -363,6 +363,7 @@ pub fn check_c07_cli(case: &C07Cli) -> CaseResult {
             default: vec![],
         },
         fail_write_at: None,
+        write_stall: None,
         unsolicited: if case.idle.is_empty() {
             vec![]
         } else {
@@ -372,6 +373,7 @@ pub fn check_c07_cli(case: &C07Cli) -> CaseResult {
     let quiet = ConnPlan {
         peer: PeerPlan::default(),
         fail_write_at: None,
+        write_stall: None,
         unsolicited: vec![],
     };
     let run = run_client(&CliCase {
